@@ -6,7 +6,7 @@ import vlib
 SEM = os.path.join(vlib.VERIF, "spec", "sem")
 
 
-def run_scenarios(res, scen_list, monitor, spec_dir=SEM, tag="", timeout=1500, sub="seq"):
+def run_scenarios(res, scen_list, monitor, spec_dir=SEM, tag="", timeout=1500, sub="seq", par=16, procs=1):
     """scen_list: list of scenario dicts without 'tr'. Returns number of traces validated. Adds violations to res."""
     if not scen_list:
         return 0
@@ -19,7 +19,32 @@ def run_scenarios(res, scen_list, monitor, spec_dir=SEM, tag="", timeout=1500, s
             sc = dict(sc, tr=i + 1)
             scen[i + 1] = sc
             f.write(json.dumps(sc) + "\n")
-    rc, out = vlib.sh([vh, sub, "-scen", sp, "-out", tp, "-par", "16"], timeout)
+    if procs > 1:
+        # several driver processes side by side (scenarios that must run one at a time within a process: goroutine accounting)
+        import subprocess
+        lines = open(sp).read().splitlines()
+        parts = [lines[i::procs] for i in range(procs)]
+        ps = []
+        for i, part in enumerate(parts):
+            if not part:
+                continue
+            open("%s.%d" % (sp, i), "w").write("\n".join(part) + "\n")
+            ps.append((i, subprocess.Popen([vh, sub, "-scen", "%s.%d" % (sp, i), "-out", "%s.%d" % (tp, i), "-par", str(par)],
+                                           stdout=subprocess.PIPE, stderr=subprocess.STDOUT, text=True)))
+        out, rc = "", 0
+        with open(tp, "w") as f:
+            for i, pr in ps:
+                try:
+                    o, _ = pr.communicate(timeout=timeout)
+                except subprocess.TimeoutExpired:
+                    pr.kill()
+                    raise vlib.Inconclusive("driver process %d timed out" % i)
+                out += o
+                rc = rc or pr.returncode
+                if os.path.exists("%s.%d" % (tp, i)):
+                    f.write(open("%s.%d" % (tp, i)).read())
+    else:
+        rc, out = vlib.sh([vh, sub, "-scen", sp, "-out", tp, "-par", str(par)], timeout)
     if rc != 0:
         raise vlib.Inconclusive("driver failed:\n" + out[-3000:])
     inc = [l for l in out.splitlines() if l.startswith("INCONCLUSIVE")]
